@@ -170,7 +170,15 @@ func fileOf(p *packages.Package, pos token.Pos) *ast.File {
 func (P *Program) Instances(key string) []*ssa.Function {
 	fn := P.funcs[key]
 	if fn == nil {
-		return nil
+		// methods of generic types exist only as instantiations: match keys with type arguments stripped
+		var out []*ssa.Function
+		for k, f := range P.funcs {
+			if f.Origin() != nil && stripBrackets(k) == key {
+				out = append(out, f)
+			}
+		}
+		sort.Slice(out, func(i, j int) bool { return FuncKey(out[i]) < FuncKey(out[j]) })
+		return out
 	}
 	if fn.TypeParams().Len() == 0 || len(fn.TypeArgs()) > 0 {
 		return []*ssa.Function{fn}
@@ -183,4 +191,20 @@ func (P *Program) Instances(key string) []*ssa.Function {
 	}
 	sort.Slice(out, func(i, j int) bool { return FuncKey(out[i]) < FuncKey(out[j]) })
 	return out
+}
+
+func stripBrackets(s string) string {
+	var b strings.Builder
+	depth := 0
+	for _, c := range s {
+		switch {
+		case c == '[':
+			depth++
+		case c == ']':
+			depth--
+		case depth == 0:
+			b.WriteRune(c)
+		}
+	}
+	return b.String()
 }
